@@ -414,4 +414,88 @@ theorem bondGuardsReduced_iff (pos : List Vec3) (L : Mat3) :
   unfold bondGuardsReduced
   simp only [Bool.and_eq_true, decide_eq_true_eq, List.all_eq_true]
 
+
+/-! ### the width guard with a margin (atoms on the faces of the cell or slightly outside) -/
+
+/-- `mult_bound` with a margin: atoms up to `δ` cell lengths outside the closed cell, widths shrunk by `1 - 2δ` -/
+theorem mult_bound_margin (w v p q : Vec3) (d c δ : Rat) (n : Int) (hd : d ≠ 0) (hδ1 : 2 * δ < 1)
+    (hv : dot v w = dot p w + n * d - dot q w)
+    (hp0 : -δ ≤ dot p w / d) (hp1 : dot p w / d ≤ 1 + δ) (hq0 : -δ ≤ dot q w / d) (hq1 : dot q w / d ≤ 1 + δ)
+    (hvc : normSq v < c * c) (hw : c * c * normSq w ≤ (1 - 2 * δ) * (1 - 2 * δ) * (d * d)) :
+    n = -1 ∨ n = 0 ∨ n = 1 := by
+  have hcs := cauchy_schwarz v w
+  have hwn := normSq_nonneg w
+  have hvn := normSq_nonneg v
+  have hdd : 0 < d * d := mul_self_pos.mpr hd
+  have hspos : 0 < 1 - 2 * δ := by linarith
+  have hss : 0 < (1 - 2 * δ) * (1 - 2 * δ) := mul_pos hspos hspos
+  have hs : dot v w * dot v w < (1 - 2 * δ) * (1 - 2 * δ) * (d * d) := by
+    rcases eq_or_lt_of_le hwn with h0 | hpos
+    · rw [← h0] at hcs
+      have : 0 < (1 - 2 * δ) * (1 - 2 * δ) * (d * d) := mul_pos hss hdd
+      nlinarith
+    · nlinarith
+  generalize hfp : dot p w / d = fp at hp0 hp1
+  generalize hfq : dot q w / d = fq at hq0 hq1
+  have ep : dot p w = fp * d := by rw [← hfp]; field_simp
+  have eq : dot q w = fq * d := by rw [← hfq]; field_simp
+  have es : dot v w = d * (fp + n - fq) := by rw [hv, ep, eq]; ring
+  rw [es] at hs
+  have ht : (fp + n - fq) * (fp + n - fq) < (1 - 2 * δ) * (1 - 2 * δ) := by
+    by_contra hcon
+    have hcon := not_lt.mp hcon
+    nlinarith
+  have h1 : fp + n - fq < 1 - 2 * δ := by nlinarith
+  have h2 : -(1 - 2 * δ) < fp + n - fq := by nlinarith
+  have h3 : (n : Rat) < 2 := by linarith
+  have h4 : (-2 : Rat) < n := by linarith
+  have h5 : n < (2 : Int) := by exact_mod_cast h3
+  have h6 : (-2 : Int) < n := by exact_mod_cast h4
+  omega
+
+/-- **27 images suffice, with a margin**: atoms within `δ` of the closed cell, `c ≤ (1 - 2δ)·width_k` -/
+theorem images27_iff_minImage_margin (L : Mat3) (p q : Vec3) (c δ : Rat) (hdet : L.det ≠ 0) (hδ1 : 2 * δ < 1)
+    (hp : L.insideMargin δ p) (hq : L.insideMargin δ q) (hw : L.widthsGeScaled c (1 - 2 * δ)) :
+    (∃ o ∈ ucOffsets L, distSq (p + o) q < c * c) ↔ MinImage L p q c := by
+  constructor
+  · rintro ⟨o, ho, hlt⟩
+    obtain ⟨m, _, rfl⟩ := List.mem_map.mp ho
+    exact ⟨m.1, m.2.1, m.2.2, hlt⟩
+  · rintro ⟨n1, n2, n3, hlt⟩
+    obtain ⟨⟨hpx0, hpx1⟩, ⟨hpy0, hpy1⟩, ⟨hpz0, hpz1⟩⟩ := hp
+    obtain ⟨⟨hqx0, hqx1⟩, ⟨hqy0, hqy1⟩, ⟨hqz0, hqz1⟩⟩ := hq
+    obtain ⟨hwx, hwy, hwz⟩ := hw
+    have b1 := mult_bound_margin _ _ p q L.det c δ n1 hdet hδ1 (dot_frac_x L p q n1 n2 n3) hpx0 hpx1 hqx0 hqx1 hlt hwx
+    have b2 := mult_bound_margin _ _ p q L.det c δ n2 hdet hδ1 (dot_frac_y L p q n1 n2 n3) hpy0 hpy1 hqy0 hqy1 hlt hwy
+    have b3 := mult_bound_margin _ _ p q L.det c δ n3 hdet hδ1 (dot_frac_z L p q n1 n2 n3) hpz0 hpz1 hqz0 hqz1 hlt hwz
+    exact ⟨_, List.mem_map.mpr ⟨(n1, n2, n3), mem_ucMultipliers n1 n2 n3 b1 b2 b3, rfl⟩, hlt⟩
+
+theorem bondGuardsMargin_iff (elems : List String) (pos : List Vec3) (L : Mat3) (δ : Rat) :
+    bondGuardsMargin elems pos L δ = true ↔
+      0 ≤ δ ∧ 2 * δ < 1 ∧ L.det ≠ 0 ∧ (∀ p ∈ pos, L.insideMargin δ p)
+      ∧ ∀ e1 ∈ elems, ∀ e2 ∈ elems, ∀ c, maxBondLength e1 e2 = some c → L.widthsGeScaled c (1 - 2 * δ) := by
+  unfold bondGuardsMargin
+  simp only [Bool.and_eq_true, decide_eq_true_eq, List.all_eq_true, and_assoc]
+  refine and_congr Iff.rfl (and_congr Iff.rfl (and_congr Iff.rfl (and_congr Iff.rfl ?_)))
+  constructor
+  · intro h e1 h1 e2 h2 c hc
+    have := h e1 h1 e2 h2
+    rw [hc] at this
+    simpa using this
+  · intro h e1 h1 e2 h2
+    cases hc : maxBondLength e1 e2 with
+    | none => rfl
+    | some c => simpa using h e1 h1 e2 h2 c hc
+
+/-- the strict guards are the margin guards with δ = 0 -/
+theorem inside_imp_insideMargin (L : Mat3) (p : Vec3) (h : L.inside p) : L.insideMargin 0 p := by
+  obtain ⟨⟨a0, a1⟩, ⟨b0, b1⟩, ⟨c0, c1⟩⟩ := h
+  unfold Mat3.insideMargin
+  simp only [neg_zero, add_zero]
+  exact ⟨⟨a0, le_of_lt a1⟩, ⟨b0, le_of_lt b1⟩, ⟨c0, le_of_lt c1⟩⟩
+
+theorem widthsGe_iff_scaled_one (L : Mat3) (c : Rat) : L.widthsGe c ↔ L.widthsGeScaled c (1 - 2 * 0) := by
+  unfold Mat3.widthsGe Mat3.widthsGeScaled
+  simp only [mul_zero, sub_zero, one_mul]
+
 end Mofun.Bonds
